@@ -41,6 +41,7 @@ def run(repo, chk):
     for f in (d, t):
         chk.touch(f)
     rule_a(chk, d)
+    rule_a_done(repo, chk)
     rule_b(chk, d)
     rule_b(chk, t)
     rule_c(repo, chk)
@@ -65,6 +66,19 @@ def rule_a(chk, d):
                 for _r, c in pat.method_calls(n.ast, m):
                     chk.ob('a', d.ref, 'the accounting is done for the dispatched event', bool(c.args) and src(c.args[0]) == ev,
                            loc(d, c), detail=f'`{src(c)}`', discr=f'accounting-arg:{m}')
+
+
+def rule_a_done(repo, chk):
+    e = repo.func(MANAGER, 'Manager._eventDone')
+    chk.touch(e)
+    g = e.cfg()
+    ev = e.params[1]
+    walks = [n for n in g.nodes if n.kind == 'stmt' and any(r == 'self' and c.args and src(c.args[0]) == ev for r, c in pat.method_calls(n.ast, '_eventComplete'))]
+    p = Q.escapes(g, [g.entry], lambda n: n in walks, avoid_edge=pat.test_edge(
+        lambda tt, pol: (pol == 'T' and src(tt) == f'{ev}.waitingHandlers') or pat.fact_matches(pat.compare_fact(tt, pol), f'{ev}.waitingHandlers', ('!=', '>'), '0')))
+    chk.ob('a', e.ref, 'once no handler of the event is suspended, every path of _eventDone — also for an event whose handler raised — gives the '
+                       'event\'s unit back to the completion accounting', p is None and bool(walks), loc(e, e.node), path=pat.path_lines(p) if p else None,
+           discr='done-reaches-accounting')
 
 
 def rule_b(chk, f):
